@@ -87,6 +87,11 @@ def perturb_accel(rng, spec):
                     by_tensor.setdefault(b["tensor"], []).append(b)
             for t, bs in by_tensor.items():
                 eager = any(b.get("style") == "eager" for b in bs)
+                if eager and all(b.get("style") == "eager" for b in bs) and rng.random() < 0.15:
+                    for b in bs:
+                        b["style"] = "lazy"
+                    eager = False
+                    notes.append("eager->lazy")
                 if rng.random() < 0.15 and not eager:
                     for b in bs:
                         b["style"] = "lazy"
@@ -137,6 +142,7 @@ def _arch(rng):
     n_pe = ninst if "[" in pe_name else 1
     depth = rng.choice([16, 128, "inf"])
     layout = {"lane": rng.random() < 0.5, "red_first": rng.random() < 0.5}
+    l2bw = rng.choice([256, 2048])
     for cfg in ("cfgA", "cfgB"):
         freq = rng.choice([1000, 2048, 5000, 10 ** 9])
         local_pe = [
@@ -164,10 +170,13 @@ def _arch(rng):
             inst["Seq"] = n_pe
         # a single-instance sibling level listed before or after the multi-instance one
         subtree = [{"name": "Red", "local": local_red}, pe] if layout["red_first"] else [pe, {"name": "Red", "local": local_red}]
+        # memory hierarchy as in the accelerator specifications: DRAM at the top, the cache one
+        # level down, the buffet in the PE (one traffic path per tensor)
         cfgs[cfg] = [{"name": "System", "attributes": {"clock_frequency": freq},
-                      "local": [{"name": "DRAM", "class": "DRAM", "attributes": {"bandwidth": bw}},
-                                {"name": "L2", "class": "Cache", "attributes": {"width": 64, "depth": 1024}}],
-                      "subtree": subtree}]
+                      "local": [{"name": "DRAM", "class": "DRAM", "attributes": {"bandwidth": bw}}],
+                      "subtree": [{"name": "Chip",
+                                   "local": [{"name": "L2", "class": "Cache", "attributes": {"width": 64, "depth": 1024, "bandwidth": l2bw}}],
+                                   "subtree": subtree}]}]
         info[cfg] = {"freq": freq, "inst": inst, "bw": {"DRAM": bw}}
     return cfgs, info
 
@@ -197,8 +206,10 @@ def gen_synth(rng):
     n = classes._choice_w(rng, [(1, 3), (2, 4), (3, 4)])
     decl = {"A": ["K", "M"], "B": ["K", "N"], "C": ["M", "N"], "D": ["N"], "T": ["K", "M", "N"],
             "Z": ["M", "N"], "Y": ["M"]}
+    decl["E"] = ["M", "N"]
     all_exprs = ["T[k, m, n] = A[k, m] * B[k, n]",
-                 rng.choice(["Z[m, n] = T[k, m, n] * C[m, n]", "Z[m, n] = T[k, m, n]"]),
+                 rng.choice(["Z[m, n] = T[k, m, n] * C[m, n]", "Z[m, n] = T[k, m, n] * C[m, n]", "Z[m, n] = T[k, m, n]",
+                             "Z[m, n] = T[k, m, n] * C[m, n] * E[m, n]", "Z[m, n] = C[m, n] * T[k, m, n] * E[m, n]"]),
                  "Y[m] = Z[m, n] * D[n]"]
     exprs = all_exprs[:n]
     used = set()
@@ -277,14 +288,15 @@ def gen_synth(rng):
             elif c in ("TF", "SA", "LF"):
                 if not co or isect_used:
                     continue
-                r = rng.choice(co)
-                b = {"rank": r}
-                if c == "LF":
-                    # leader = first operand of the term holding the rank: the payload order of
-                    # Fiber.intersection with another leader is a fibertree behaviour the
-                    # reference runtime does not model (DESIGN 4.2)
-                    b["leader"] = hold[r][0]
-                bl.append({"component": c, "bindings": [b]})
+                rs = rng.sample(co, 2) if len(co) >= 2 and rng.random() < 0.35 else [rng.choice(co)]
+                bs = []
+                for r in rs:
+                    b = {"rank": r}
+                    if c == "LF":
+                        # leader = first operand of the term holding the rank (known finding C11-LF-ORDER)
+                        b["leader"] = hold[r][0]
+                    bs.append(b)
+                bl.append({"component": c, "bindings": bs})
                 isect_used = True
             else:
                 k = rng.randint(1, len(lo[o]))
@@ -298,7 +310,18 @@ def gen_synth(rng):
             dram = _tensor_bindings(rng, t, order, lo[o], False)
             buf = _tensor_bindings(rng, t, order, lo[o], True)
             _append_bindings(bl, "DRAM", dram)
-            _append_bindings(bl, rng.choice(["Buf", "Buf", "L2"]), buf)
+            if rng.random() < 0.25:
+                # two on-chip levels holding the same tensor: a (lazy) cache above a lazy or eager buffet
+                _append_bindings(bl, "L2", _tensor_bindings(rng, t, order, lo[o], True, style_p=0.0))
+                _append_bindings(bl, "Buf", buf)
+            else:
+                _append_bindings(bl, rng.choice(["Buf", "Buf", "L2"]), buf)
+        # hardware merger: an intermediate stored in one order and consumed in another
+        for t in ins:
+            if t in outs and rng.random() < 0.6:
+                need = [r for r in lo[o] if r in ro[t]]
+                if need != ro[t]:
+                    bl.append({"component": "Mrg", "bindings": [{"tensor": t, "init-ranks": list(ro[t]), "final-ranks": need}]})
         bindings[o] = bl
         sp = st[o]["space"]
         prefix = lo[o][:lo[o].index(sp[0])] if sp else list(lo[o])
